@@ -19,7 +19,14 @@ def bad_adaptors(b):
                    if callee_tag(t.get("callee"))[1] in BAD_ITER})
 
 
+def P(b, *path, arg=1):
+    return ("place", b.key, ("arg", arg), tuple(path))
+
+
 def r_iter_readitems(F, R):
+    """R-ITER for the read items of slice and columns regions, on the semantic alternatives of
+    what each function returns (match / if-let / `?` / combinators all look the same there)."""
+    from expr import ret_alts, nobb, NONE
     n = 0
     # ---- ReadSlice::into_iter builds start..end of the same item
     for b in [x for x in F.bodies.values() if x.trait == "IntoIterator" and x.name == "into_iter" and
@@ -27,108 +34,117 @@ def r_iter_readitems(F, R):
         n += 1
         R.saw(b)
         ctx = Ctx(b)
-        rets = [strip_bb(tree(ctx, o)) for o in ctx.org.local(0)]
+        alts = [nobb(t) for t in ret_alts(ctx) if t != NONE]
         ok_range = False
         ok_owned = False
-        for t in rets:
+        bad_range = []
+        for t in alts:
             for nd in walk(t):
                 if nd[0] == "agg" and nd[1] == "Range::Range" and len(nd[2]) == 2:
-                    s, e = nd[2]
-                    ok_range = (s[0] == "place" and e[0] == "place" and s[3][-1] == "f:start" and
-                                e[3][-1] == "f:end" and s[3][:-1] == e[3][:-1])
+                    s_, e_ = nd[2]
+                    good = (s_[0] == "place" and e_[0] == "place" and s_[3][-1:] == ("f:start",) and
+                            e_[3][-1:] == ("f:end",) and s_[3][:-1] == e_[3][:-1])
+                    ok_range = ok_range or good
+                    if not good:
+                        bad_range.append(show(nd))
                 if nd[0] == "call" and nd[1] == ("slice", "iter") and nd[2] and nd[2][0][0] == "place" and \
                         nd[2][0][3][-2:] == ("v:Err", "f:0"):
                     ok_owned = True
-        R.check("R-ITER", b.label(), ok_range and ok_owned and not bad_adaptors(b),
-                construct="iterates start..end of the region-backed item / the whole owned slice",
-                where=b.where(), detail="returns %s" % [show(t)[:140] for t in rets])
-    # ---- ReadSliceIterInner::next = range.next().map(|i| inner.index(slices.index(i)))
+        if not ok_range and not bad_range and not ok_owned:
+            R.undecided_site("R-ITER", b.label(), "iterator construction not recognised: %s" % [show(t)[:100] for t in alts])
+        else:
+            R.check("R-ITER", b.label(), ok_range and ok_owned and not bad_range and not bad_adaptors(b),
+                    construct="iterates start..end of the region-backed item / the whole owned slice",
+                    where=b.where(), detail="returns %s" % [show(t)[:140] for t in alts])
+    # ---- ReadSliceIterInner::next = range.next().map(|i| region.inner.index(region.slices.index(i)))
     for b in [x for x in F.bodies.values() if x.trait == "Iterator" and x.name == "next" and
               x.self_adt == "impls::slice::ReadSliceIterInner"]:
         n += 1
         R.saw(b)
         ctx = Ctx(b)
-        rets = [strip_bb(tree(ctx, o)) for o in ctx.org.local(0)]
-        ok = len(rets) == 1 and rets[0][0] == "call" and rets[0][1] == ("Option", "map") and \
-            rets[0][2][0] == ("call", ("Iterator", "next"), (("place", b.key, ("arg", 1), ("f:1",)),), ())
-        c_ok = False
-        for (cbi, si, ckey, ops) in closure_sites(b):
-            cb = F.body(ckey)
-            cc = Ctx(cb)
-            for o in cc.org.local(0):
-                t = strip_bb(tree(cc, o))
-                if t[0] == "call" and t[1] == ("Region", "index") and t[2][1][0] == "call" and \
-                        t[2][1][1] == ("IndexContainer", "index") and \
-                        t[2][1][2][1] == ("place", cb.key, ("arg", 2), ()):
-                    r_inner = t[2][0]
-                    r_slices = t[2][1][2][0]
-                    if r_inner[0] == "place" and r_slices[0] == "place" and r_inner[3][-1] == "f:inner" and \
-                            r_slices[3][-1] == "f:slices" and r_inner[3][:-1] == r_slices[3][:-1]:
-                        c_ok = True
-        R.check("R-ITER", b.label(), ok and c_ok and not bad_adaptors(b),
+        somes = [nobb(t) for t in ret_alts(ctx) if t != NONE]
+        ok = bool(somes)
+        for t in somes:
+            good = False
+            if t[0] == "agg" and t[1] == "Option::Some" and t[2][0][0] == "call" and t[2][0][1] == ("Region", "index"):
+                inner_, pos_ = t[2][0][2]
+                if pos_[0] == "call" and pos_[1] == ("IndexContainer", "index"):
+                    slices_, k_ = pos_[2]
+                    rng = [f["name"] for f in F.adts["impls::slice::ReadSliceIterInner"]["variants"][0]["fields"]
+                           if "Range" in f["ty"]["s"]]
+                    good = (inner_[0] == "place" and slices_[0] == "place" and inner_[3][-1:] == ("f:inner",) and
+                            slices_[3][-1:] == ("f:slices",) and inner_[3][:-1] == slices_[3][:-1] and
+                            k_[0] == "call" and k_[1] == ("Iterator", "next") and k_[3] == ("v:Some", "f:0") and
+                            k_[2][0][0] == "place" and k_[2][0][2] == ("arg", 1) and
+                            (not rng or k_[2][0][3] == ("f:" + rng[0],)))
+            ok = ok and good
+        R.check("R-ITER", b.label(), ok and not bad_adaptors(b),
                 construct="next = range.next().map(|i| region.inner.index(region.slices.index(i)))",
-                where=b.where(), detail="returns %s; closure composes slices then inner: %s" % (
-                    [show(t)[:120] for t in rets], c_ok))
+                where=b.where(), detail="yields %s" % [show(t)[:150] for t in somes])
     # ---- wrappers: per-arm delegation
-    for (adt, inner_field) in (("impls::slice::ReadSliceIter", None), ("impls::columns::ReadColumnsIter", None)):
+    for adt in ("impls::slice::ReadSliceIter", "impls::columns::ReadColumnsIter"):
         for b in [x for x in F.bodies.values() if x.trait == "Iterator" and x.name == "next" and x.self_adt == adt]:
             n += 1
             R.saw(b)
             ctx = Ctx(b)
-            rets = [strip_bb(tree(ctx, o)) for o in ctx.org.local(0)]
+            alts = [nobb(t) for t in ret_alts(ctx) if t != NONE]
             arms = set()
-            for t in rets:
+            bad = []
+            for t in alts:
                 if t[0] == "call" and t[1] == ("Iterator", "next") and t[2][0][0] == "place" and \
                         t[2][0][3][-2:] == ("v:Ok", "f:0"):
                     arms.add("Ok")
-                if t[0] == "call" and t[1] == ("Option", "map") and t[2][0][0] == "call" and \
-                        t[2][0][1] == ("Iterator", "next") and t[2][0][2][0][3][-2:] == ("v:Err", "f:0") and \
-                        t[2][1][0] == "const" and "borrow_as" in t[2][1][1]:
+                elif t[0] == "agg" and t[1] == "Option::Some" and t[2][0][0] == "call" and \
+                        t[2][0][1] == ("IntoOwned", "borrow_as") and t[2][0][2][0][0] == "call" and \
+                        t[2][0][2][0][1] == ("Iterator", "next") and t[2][0][2][0][3] == ("v:Some", "f:0") and \
+                        t[2][0][2][0][2][0][0] == "place" and t[2][0][2][0][2][0][3][-2:] == ("v:Err", "f:0"):
                     arms.add("Err")
-            R.check("R-ITER", b.label(), arms == {"Ok", "Err"} and len(rets) == 2 and not bad_adaptors(b),
+                else:
+                    bad.append(show(t)[:100])
+            R.check("R-ITER", b.label(), arms == {"Ok", "Err"} and not bad and not bad_adaptors(b),
                     construct="next delegates to the matching arm's next",
-                    where=b.where(), detail="returns %s" % [show(t)[:100] for t in rets])
+                    where=b.where(), detail="yields %s" % [show(t)[:100] for t in alts])
     # ---- ReadColumns::into_iter zips (row indices, columns) in that order; next = r.index(i)
     for b in [x for x in F.bodies.values() if x.trait == "IntoIterator" and x.name == "into_iter" and
               x.self_adt == "impls::columns::ReadColumns"]:
         n += 1
         R.saw(b)
         ctx = Ctx(b)
-        rets = [strip_bb(tree(ctx, o)) for o in ctx.org.local(0)]
+        alts = [nobb(t) for t in ret_alts(ctx) if t != NONE]
         ok = False
-        for t in rets:
+        seen_zip = False
+        for t in alts:
             for nd in walk(t):
                 if nd[0] == "call" and nd[1] == ("Iterator", "zip") and len(nd[2]) == 2:
+                    seen_zip = True
                     a, c = nd[2]
                     pa = [x for x in walk(a) if x[0] == "place"]
                     pc = [x for x in walk(c) if x[0] == "place"]
                     ok = bool(pa) and bool(pc) and pa[0][3][-1] == "f:index" and pc[0][3][-1] == "f:columns" \
                         and pa[0][3][:-1] == pc[0][3][:-1]
-        R.check("R-ITER", b.label(), ok and not bad_adaptors(b),
-                construct="iterates zip(row indices, columns) of the same row",
-                where=b.where(), detail="returns %s" % [show(t)[:140] for t in rets])
+        if not seen_zip:
+            R.undecided_site("R-ITER", b.label(), "row iterator construction not recognised")
+        else:
+            R.check("R-ITER", b.label(), ok and not bad_adaptors(b),
+                    construct="iterates zip(row indices, columns) of the same row",
+                    where=b.where(), detail="returns %s" % [show(t)[:140] for t in alts])
     for b in [x for x in F.bodies.values() if x.trait == "Iterator" and x.name == "next" and
               x.self_adt == "impls::columns::ReadColumnsIterInner"]:
         n += 1
         R.saw(b)
         ctx = Ctx(b)
-        c_ok = False
-        for (cbi, si, ckey, ops) in closure_sites(b):
-            cb = F.body(ckey)
-            cc = Ctx(cb)
-            for o in cc.org.local(0):
-                t = strip_bb(tree(cc, o))
-                if t[0] == "call" and t[1] == ("Region", "index") and \
-                        t[2][0] == ("place", cb.key, ("arg", 2), ("f:1",)) and \
-                        t[2][1] == ("place", cb.key, ("arg", 2), ("f:0",)):
-                    c_ok = True
-        rets = [strip_bb(tree(ctx, o)) for o in ctx.org.local(0)]
-        ok = len(rets) == 1 and rets[0][0] == "call" and rets[0][1] == ("Option", "map") and \
-            rets[0][2][0] == ("call", ("Iterator", "next"), (("place", b.key, ("arg", 1), ("f:iter",)),), ())
-        R.check("R-ITER", b.label(), ok and c_ok and not bad_adaptors(b),
+        somes = [nobb(t) for t in ret_alts(ctx) if t != NONE]
+        ok = bool(somes)
+        for t in somes:
+            good = False
+            if t[0] == "agg" and t[1] == "Option::Some" and t[2][0][0] == "call" and t[2][0][1] == ("Region", "index"):
+                col, idx = t[2][0][2]
+                good = (col[0] == "call" and idx[0] == "call" and col[1] == idx[1] == ("Iterator", "next") and
+                        col[2] == idx[2] and col[3] == ("v:Some", "f:0", "f:1") and idx[3] == ("v:Some", "f:0", "f:0"))
+            ok = ok and good
+        R.check("R-ITER", b.label(), ok and not bad_adaptors(b),
                 construct="next = zip.next().map(|(i, column)| column.index(i))",
-                where=b.where(), detail="returns %s; closure pairs column with its own index: %s" % (
-                    [show(t)[:100] for t in rets], c_ok))
+                where=b.where(), detail="yields %s" % [show(t)[:150] for t in somes])
     R.floor("R-ITER", "read-item iterator bodies", n, 6)
 
 
@@ -263,3 +279,54 @@ def r_iter_positions(F, R, cat=None):
             R.check("R-ITER", b.label(), ok, construct="looked-up position comes from the range iterator",
                     where=e.where(), detail="; ".join(sorted(set(why))))
     R.floor("R-ITER", "position lookups in read-item iterators", n, 1)
+
+
+# ---------------------------------------------------------------------------------------------
+# mutant self-test (thorough tier): the property's rules must fire on each stored one-hunk breakage
+
+
+def mutant_selftest(R, repo, prop):
+    import concurrent.futures as cf
+    import glob
+    import re
+    mdir = os.path.join(VERIF, "mutants")
+    sdir = os.path.join(VERIF, "seeded")
+    items = []
+    for f in sorted(glob.glob(os.path.join(mdir, "*.patch"))):
+        toks = {"C" + x for x in re.findall(r"c(\d\d)", os.path.basename(f).split("_", 1)[1])}
+        if prop in toks:
+            items.append((os.path.basename(f), f))
+    for d in sorted(glob.glob(os.path.join(sdir, "*"))):
+        meta = os.path.join(d, "meta.json")
+        if os.path.exists(meta):
+            m = json.load(open(meta))
+            if prop in (m.get("expected_checks") or [m.get("property")]):
+                items.append(("seeded/" + os.path.basename(d), os.path.join(d, "patch.diff")))
+
+    def one(item):
+        name, patch = item
+        tmp = tempfile.mkdtemp(prefix="fc-mut.")
+        try:
+            work = os.path.join(tmp, "repo")
+            shutil.copytree(repo, work, ignore=shutil.ignore_patterns("target", ".git"))
+            p = subprocess.run(["patch", "-p1", "-s", "-i", patch], cwd=work, capture_output=True, text=True)
+            if p.returncode != 0:
+                return (name, "skipped (patch does not apply to the current tree)")
+            c = subprocess.run([os.path.join(VERIF, "check"), prop, "--repo", work, "--no-evidence", "--tier", "quick"],
+                               capture_output=True, text=True)
+            return (name, "flagged" if c.returncode == 1 else "NOT flagged (exit %d)" % c.returncode)
+        finally:
+            shutil.rmtree(tmp, ignore_errors=True)
+
+    results = []
+    with cf.ThreadPoolExecutor(max_workers=6) as ex:
+        for r in ex.map(one, items):
+            results.append(r)
+    applied = [r for r in results if not r[1].startswith("skipped")]
+    flagged = [r for r in applied if r[1] == "flagged"]
+    R.extra["mutant_selftest"] = {
+        "mutants_for_this_property": len(items), "applied": len(applied), "flagged": len(flagged),
+        "not_flagged": [r[0] for r in applied if r[1] != "flagged"],
+        "skipped": [r[0] for r in results if r[1].startswith("skipped")],
+        "note": "sensitivity evidence only: results never change the exit status of the check",
+    }
